@@ -135,7 +135,8 @@ theorem allGellmannT2_length (S : Scalars R) (hd : 1 ≤ d) : (allGellmannT2 S d
 theorem tensor2_executed_eq_kronecker (S : Scalars R) (hd : 1 ≤ d) {a b : Nat} (ha : a < d * d) (hb : b < d * d) :
     basisT2 S d (a * (d * d) + b) = Matrix.reindex finProdFinEquiv finProdFinEquiv (kroneckerMap (· * ·) (basis S d a) (basis S d b)) :=
   basisT2_eq S hd ha hb
-/-- … and **the executed list is orthogonal with `Tr(T_x T_y) = 4 δ_xy`** for all `x, y < d⁴`. -/
+/-- … and **the executed list construction is orthogonal with `Tr(T_x T_y) = 4 δ_xy`** for all `x, y < d⁴` — with exact scalars (`S.Valid`); the
+binary64 scalars the driver runs with satisfy it up to the residual measured by op `scal` (see the bridge section below). -/
 theorem tensor2_executed_orthogonal (S : Scalars R) (hS : S.Valid d) (hd : 1 ≤ d) {x y : Nat}
     (hx : x < (d * d) * (d * d)) (hy : y < (d * d) * (d * d)) :
     trace (basisT2 S d x * basisT2 S d y) = if x = y then 4 else 0 :=
